@@ -413,6 +413,28 @@ func (a *Actor) ResponseSlow(id string, head, tail []byte, pause time.Duration) 
 	return c
 }
 
+// pieceReader hands out data in pieces of at most piece bytes.
+type pieceReader struct {
+	data  []byte
+	piece int
+}
+
+func (r *pieceReader) Read(p []byte) (int, error) {
+	if len(r.data) == 0 {
+		return 0, io.EOF
+	}
+	n := len(r.data)
+	if n > r.piece {
+		n = r.piece
+	}
+	if n > len(p) {
+		n = len(p)
+	}
+	copy(p, r.data[:n])
+	r.data = r.data[n:]
+	return n, nil
+}
+
 type slowBody struct {
 	parts [][]byte
 	pause time.Duration
@@ -522,7 +544,10 @@ func (w *World) Invoke(payload []byte, hdr map[string]string) *Invoke {
 	w.Milestone++
 	sched.Record(fmt.Sprintf("invoke-issue:%d", inv.Idx))
 	rec := httptest.NewRecorder()
-	req := httptest.NewRequest("POST", "http://localhost:8080/2015-03-31/functions/function/invocations", bytes.NewReader(payload))
+	// the body arrives the way a network delivers it: in pieces (no single Read returns all of a larger event),
+	// with the Content-Length a client sends
+	req := httptest.NewRequest("POST", "http://localhost:8080/2015-03-31/functions/function/invocations", &pieceReader{data: payload, piece: 4000})
+	req.ContentLength = int64(len(payload))
 	for k, v := range hdr {
 		req.Header.Set(k, v)
 	}
